@@ -1,5 +1,6 @@
 mod analyzer;
 mod c06;
+mod cli;
 mod deep;
 mod exprrec;
 mod exprrows;
@@ -87,6 +88,17 @@ fn main() {
         // vh deep-one <kind> <depth>     (run in a child process by the check)
         "deep-one" => {
             deep::run(&args[2], args[3].parse().unwrap());
+        }
+        // vh cli-replay <tlc-output> <abasic binary> <scratch dir> <report.json>
+        "cli-replay" => {
+            let text = read_input(&args[2]);
+            cli::replay_rows(&text, &args[3], &args[4], &mut rep);
+            std::fs::write(&args[5], serde_json::to_string(&rep.to_json()).unwrap()).unwrap();
+        }
+        // vh cli-record <seed> <n> <abasic binary> <scratch dir> <out.ndjson> <report.json>
+        "cli-record" => {
+            cli::record(args[2].parse().unwrap(), args[3].parse().unwrap(), &args[4], &args[5], &args[6], &mut rep);
+            std::fs::write(&args[7], serde_json::to_string(&rep.to_json()).unwrap()).unwrap();
         }
         // vh lex-record <seed> <n> <out.ndjson>
         "lex-record" => {
